@@ -1,4 +1,5 @@
 import Ledger.Proofs.CtrlIk
+import Ledger.Proofs.CtrlRetry
 import Ledger.Proofs.CtrlExamples
 
 /-!
@@ -63,5 +64,18 @@ example : (step false (step false s1 payIK).1 payIK).2.hit = true ∧
           (step false (step false s1 payIK).1 payIK).1 = (step false s1 payIK).1 := by decide +kernel
 example : (step false (step false s1 payIK).1 { payIK with ihash := "h2" }).2.err = some .invalidIdempotencyInput := by
   decide +kernel
+
+/-- The idempotency-key conflict branch of `forgeLogRetry` (a concurrent request
+    committed the same key first: the store reports the unique violation, the
+    controller re-reads the log on the root handle): under the store contract that
+    re-read finds the log, so `panic("incoherent error, received duplicate IK but log
+    not found in database")` is unreachable — unless the conflict was injected by the
+    test harness rather than reported by the store (`hnof`). -/
+theorem ik_conflict_refetch_finds_log (strict : Bool) (op : Op) (f : Faults) (cf : Bool) (s : State) (i tx : Nat)
+    (seq : Seqs) (n : Nat) (trace : List String) (seq' : Seqs) (n' : Nat) (trace' : List String)
+    (hnof : ∀ x ∈ f, x.kind ≠ .ikConflict)
+    (h : runTx strict op f cf s i tx seq n trace = .failed (.store .ikConflict) seq' n' trace') :
+    (fetchAfterConflict op f s seq' (n' + 1) trace').resp.err ≠ some .panic :=
+  conflict_panic_unreachable strict op f cf s i tx seq n trace seq' n' trace' hnof h
 
 end Ledger.C13
